@@ -3,7 +3,7 @@
    library operation (through an accessor derived by ANY chain of sub-slicing from a region, or at
    guest-memory level) and returns the new state and the operation's effect list - one effect per
    (region, written byte range); [D rs j p] = page p of region j is reported dirty. *)
-From VM Require Import Prelude.MachInt Impl.Dirty Spec.C05 Suite.C05 Proofs.C05 Proofs.C05ModelOk.
+From VM Require Import Prelude.MachInt Prelude.Outcome Impl.Bitmap Impl.Dirty Spec.C05 Suite.C05 Proofs.C05 Proofs.C05ModelOk Proofs.LinkDirtyBitmap.
 
 (* every byte an operation writes lies inside its region and on a page that the region's own
    bitmap reports dirty afterwards - for every page size, layout, operation, offset/length,
@@ -53,3 +53,65 @@ Print Assumptions C05_monotone.
 Print Assumptions C05_history_wf.
 Print Assumptions C05_bm_base_tracks.
 Print Assumptions C05_model_ok.
+
+(* ---------------------------------------------------------------------------------------------
+   LINK to C09 (Proofs/LinkDirtyBitmap.v): the theorems above are about regions whose bitmap is an
+   abstract page list.  The following restate them for regions carrying the WORD-LEVEL AtomicBitmap
+   model of Impl/Bitmap.v (Vec<AtomicU64> words, the fetch_or loop, BaseSlice wrapping offsets):
+   [wregion] = geometry + option bitmap, [wrun_step] = run_step with every mark_dirty / reset
+   executed by the Bitmap.v transcription, [abs_state] = the abstraction (pages_of each bitmap),
+   [wwfs] = every bitmap satisfies C09's bm_inv and has the region's size / page size,
+   [WD ws j i] = what dirty_at(i) answers on region j's bitmap. *)
+
+(* the abstraction commutes with every step (same result, count and effect list) and the
+   representation invariant is preserved: the word-level state is a refinement of Dirty.v's *)
+Theorem C05_words_refine : forall hm ws s, wwfs ws ->
+  wwfs (fst (wrun_step hm ws s)) /\
+  run_step hm (abs_state ws) s = (abs_state (fst (wrun_step hm ws s)), snd (wrun_step hm ws s)).
+Proof. exact wrun_step_refines_lemma. Qed.
+
+(* ... along every history, resets included *)
+Theorem C05_words_history : forall hm ss ws, wwfs ws ->
+  wwfs (wrun_steps hm ws ss) /\ abs_state (wrun_steps hm ws ss) = run_steps hm (abs_state ws) ss.
+Proof. exact words_history_lemma. Qed.
+
+(* C05_sound on the word-level bitmap: every written byte i is inside its region and
+   AtomicBitmap::dirty_at(i) answers true afterwards *)
+Theorem C05_sound_words : forall hm ws s ws' out, wwfs ws -> is_reset s = false -> wrun_step hm ws s = (ws', out) ->
+  forall e, In e (o_effs out) -> forall w b, nth_error ws (e_r e) = Some w -> w_bm w = Some b ->
+  forall i, e_woff e <= i < e_woff e + e_wn e ->
+  i < w_size w /\ WD ws' (e_r e) i = true.
+Proof. exact C05_sound_words_lemma. Qed.
+
+Theorem C05_monotone_words : forall hm ws s ws' out j i, wwfs ws -> is_reset s = false -> wrun_step hm ws s = (ws', out) ->
+  WD ws j i = true -> WD ws' j i = true.
+Proof. exact C05_monotone_words_lemma. Qed.
+
+(* the accessor reached by any derivation chain marks / reads through a C09 view (a live route and
+   a chain of BaseSlice::slice_at offsets folding, with wrap-around, to its a_bm): the (offset, len)
+   of Dirty.v's effects are exactly what BaseSlice::mark_dirty hands to the inner AtomicBitmap *)
+Theorem C05_accessor_marks_through_view : forall r ds a, derive_chain (root r) ds = Some a ->
+  exists offs, a_bm a = chain_base 0 offs /\
+    forall rt b rel n, Spec.C09.route_live rt = true ->
+      view_mark_o rt (0 :: offs) b rel n = bm_mark_dirty_o b (bm_at (a_bm a) rel) n /\
+      view_dirty_at_o rt (0 :: offs) b rel = bm_dirty_at_o b (bm_at (a_bm a) rel).
+Proof. exact chain_bm_is_view. Qed.
+
+Example C05_words_nonvacuous :
+  let w := {| w_start := 0; w_size := 20; w_ps := 7; w_bm := Some (bm_new 20 7) |} in
+  wwfs [w] /\ abs_state [w] = [{| r_start := 0; r_size := 20; r_ps := 7; r_tracked := true; r_dirty := [false; false; false] |}] /\
+  (let '(ws', out) := wrun_step 0 [w] (SAcc 0 [DSub 3 15; DOffset 2] (OWrite 4 8)) in
+   map (fun w => option_map bm_words (w_bm w)) ws' = [Some [6]] /\
+   map (WD ws' 0) [0; 6; 7; 13; 14; 19; 20; 21] = [false; false; true; true; true; true; true; false]).
+Proof.
+  cbv zeta. split; [|split].
+  - constructor; [|constructor]. apply (new_region_lemma 0 20 7); [lia|rewrite W64_val; lia].
+  - vm_compute. reflexivity.
+  - vm_compute. split; reflexivity.
+Qed.
+
+Print Assumptions C05_words_refine.
+Print Assumptions C05_words_history.
+Print Assumptions C05_sound_words.
+Print Assumptions C05_monotone_words.
+Print Assumptions C05_accessor_marks_through_view.
